@@ -32,6 +32,7 @@ package main
 import (
 	"encoding/json"
 	"fmt"
+	"os"
 	"sort"
 	"strings"
 	"sync"
@@ -558,6 +559,11 @@ func failClassified(c *lib.Ctx, class string, cs any, f string, a ...any) {
 	if class != "" {
 		c.Count("failures_class_"+class, 1)
 		if _, dup := classOnce.LoadOrStore(class, true); dup {
+			return
+		}
+		// development aid for mutant runs: VERIF_TREAT_AS_KNOWN=class,class
+		// only counts these classes (as a KNOWN_FINDINGS entry would)
+		if strings.Contains(","+os.Getenv("VERIF_TREAT_AS_KNOWN")+",", ","+class+",") {
 			return
 		}
 	}
